@@ -20,7 +20,10 @@
   Programs are structured abstract scripts; the Go harness renders the same program to JavaScript.
   Core Lean only.
 -/
+import GojaModel.C15.Conc
+
 namespace GojaModel.C15
+open GojaModel.C15.Conc (Label)
 
 /-- Abstract script statements (prefix syntax in the line protocol, see `Driver.lean`). -/
 inductive Stmt where
@@ -33,6 +36,9 @@ inductive Stmt where
       -- a built-in / Go function that re-enters the VM `reps` times, each time running `body` in a nested run loop
   | enqueue (job : List Stmt)                       -- `Q (job)`  Promise.resolve().then(job)
   | forOf (n : Nat) (brk : Bool) (next body ret : List Stmt)     -- `F n brk (next) (body) (return)`
+  | asyncResume (body : List Stmt)
+      -- asyncRunner.onFulfilled / onRejected (func.go): vm.curAsyncRunner = ar; defer { vm.curAsyncRunner = nil };
+      -- ar.gen.next(arg) — the continuation of an async function after an await, run as a promise job
 
 inductive Ev where
   | n (k : Nat)
@@ -112,18 +118,44 @@ structure St where
   queue : List (List Stmt) := []  -- r.jobQueue
   cs : Nat := 0                   -- len(vm.callStack)
   ts : List TF := []              -- vm.tryStack, top first
+  car : Bool := false             -- vm.curAsyncRunner != nil (vm.go captureStack appends the awaiting async frames iff set)
   execs : Nat := 0                -- ghost: statements executed (polls passed)
-  frozen : List Ev := []          -- ghost: the event log at the instant Interrupt(v) was called by a probe
+  polls : Nat := 0                -- ghost: polls of the interrupt flag performed so far
+  frozen : List Ev := []          -- ghost: the event log at the instant Interrupt(v) was called
+  tr : List Label := []           -- ghost: the actions of the interleaving model `Conc` this run has performed so far
 
-/-- k-th probe interrupts with value v (k = 0: never). -/
+/-- k-th probe interrupts with value v (k = 0: never); `ext = some n`: another goroutine's Interrupt(v) completes
+    just before the runner's poll number n (any poll point, not only probes). -/
 structure Cfg where
   k : Nat
   v : Nat
+  ext : Option Nat := none
+
+def emit (ls : List Label) (st : St) : St := { st with tr := st.tr ++ ls }
+
+/-- the four atomic actions of vm.Interrupt(v) performed by goroutine t (vm.go Interrupt) -/
+def interruptLabels (t v : Nat) : List Label := [.iLock t v, .iWrite t, .iStore t, .iUnlock t]
 
 def doProbe (c : Cfg) (st : St) : St :=
   let st1 := { st with log := st.log ++ [Ev.p], probes := st.probes + 1 }
-  if c.k ≠ 0 ∧ st1.probes = c.k then { st1 with flag := true, val := c.v, frozen := st1.log }   -- vm.Interrupt(v)
+  if c.k ≠ 0 ∧ st1.probes = c.k then
+    -- the runner goroutine itself (t = 0) calls Interrupt(v) from inside the native probe()
+    emit (interruptLabels 0 c.v) { st1 with flag := true, val := c.v, frozen := st1.log }
   else st1
+
+/-- What has happened in the shared cells by the time of the runner's next poll. -/
+def pollStep (c : Cfg) (st : St) : St :=
+  let st1 := { st with polls := st.polls + 1 }
+  if st.flag = false ∧ c.ext = some st.polls then
+    emit (interruptLabels 1 c.v) { st1 with flag := true, val := c.v, frozen := st.log }
+  else st1
+
+/-- the poll saw 1: leave the loop, Lock, read interruptVal, Unlock, panic (vm.go run) -/
+def raise (st : St) : St := emit [.rPoll, .rLock, .rRead, .rUnlock] st
+/-- the poll saw 0 -/
+def pass (st : St) : St := emit [.rPoll] { st with execs := st.execs + 1 }
+/-- the instruction itself -/
+def instr (st : St) : St := emit [.rInstr false] st
 
 /-- Entering a native frame that re-enters the VM.  `gen` = generator.enter/enterNext (pushCtx, marker, extra
     frame); otherwise __call / vm.try / runTry (marker, then one context). -/
@@ -141,17 +173,22 @@ mutual
 def exec : Nat → Cfg → Stmt → St → Outcome × St
   | 0, _, _, st => (.oof, st)
   | fuel + 1, c, s, st =>
-    if st.flag then (.intr st.val, st) else
-    let st := { st with execs := st.execs + 1 }
+    let st := pollStep c st
+    if st.flag then (.intr st.val, raise st) else
+    let st := pass st
     match s with
-    | .log n => (.normal, { st with log := st.log ++ [Ev.n n] })
-    | .probe => (.normal, doProbe c st)
-    | .throw => (.thrown, st)
-    | .enqueue job => (.normal, { st with queue := st.queue ++ [job] })
-    | .loop n body => execLoop fuel c n body st
-    | .native g swI swT reps body => execNative fuel c g swI swT reps body st
-    | .forOf n brk next body ret => execForOf fuel c 0 n brk next body ret st
+    | .log n => (.normal, instr { st with log := st.log ++ [Ev.n n] })
+    | .probe => (.normal, instr (doProbe c st))
+    | .throw => (.thrown, instr st)
+    | .enqueue job => (.normal, instr { st with queue := st.queue ++ [job] })
+    | .loop n body => execLoop fuel c n body (instr st)
+    | .native g swI swT reps body => execNative fuel c g swI swT reps body (instr st)
+    | .forOf n brk next body ret => execForOf fuel c 0 n brk next body ret (instr st)
+    | .asyncResume body =>
+      let r := execFrame fuel c true false true body { instr st with car := true }
+      (r.1, { r.2 with car := false })          -- the reset is deferred: it runs on every way out
     | .tryc hc hf body cat fin =>
+      let st := instr st
       let r1 := execBlock fuel c body { st with ts := handlerTF st.cs hc hf :: st.ts }
       -- uncatchable: no Go frame here; the try frame stays for the enclosing handleThrow, which skips it
       if r1.1.isAbort then r1 else
@@ -168,7 +205,9 @@ def exec : Nat → Cfg → Stmt → St → Outcome × St
     instruction: jump, ret, or the halt test which comes after the poll). -/
 def execBlock : Nat → Cfg → List Stmt → St → Outcome × St
   | 0, _, _, st => (.oof, st)
-  | _ + 1, _, [], st => if st.flag then (.intr st.val, st) else (.normal, st)
+  | _ + 1, c, [], st =>
+    let st := pollStep c st
+    if st.flag then (.intr st.val, raise st) else (.normal, emit [.rPoll, .rCtl] st)
   | fuel + 1, c, s :: rest, st =>
     let r := exec fuel c s st
     if r.1 = .normal then execBlock fuel c rest r.2 else r
@@ -195,7 +234,7 @@ def execFrame : Nat → Cfg → Bool → Bool → Bool → List Stmt → St → 
       if g then
         -- generator.step: tryStack = tryStack[:tryStackLen-1]; popCtx() is skipped; generator.next re-panics always
         (.intr v, { r.2 with ts := st.ts, cs := u.2 })
-      else if swI then (.normal, { r.2 with ts := u.1.tail, cs := u.2 })    -- deferred popTryFrame; Go caller ignores err
+      else if swI then (.normal, emit [.rCtl] { r.2 with ts := u.1.tail, cs := u.2 })   -- deferred pop; Go caller ignores err
       else (.intr v, { r.2 with ts := u.1.tail, cs := u.2 })
 
 def execNative : Nat → Cfg → Bool → Bool → Bool → Nat → List Stmt → St → Outcome × St
@@ -241,12 +280,12 @@ def leaveAbrupt (st : St) : St := { st with queue := [], flag := false }
 
 /-- The deferred function of RunProgram / runWrapped / Runtime.Try after an uncatchable error. -/
 def apiRecover (v : Nat) (st : St) : Outcome × St :=
-  if st.cs = 0 then (.intr v, leaveAbrupt st) else (.intr v, st)
+  if st.cs = 0 then (.intr v, emit [.rReturn] (leaveAbrupt st)) else (.intr v, st)
 
 /-- An outermost-or-nested API call (RunProgram or a Callable): context + marker frame, run, leave.
     `jobs = false`: Runtime.Try, which does not call leave() (queued jobs stay for the next call). -/
 def apiCallJ (jobs : Bool) (fuel : Nat) (c : Cfg) (prog : List Stmt) (st : St) : Outcome × St :=
-  let r := execBlock fuel c prog { st with cs := st.cs + 1, ts := markerTF (st.cs + 1) :: st.ts }
+  let r := execBlock fuel c prog (emit [.rCall] { st with cs := st.cs + 1, ts := markerTF (st.cs + 1) :: st.ts })
   match r.1 with
   | .oof => r
   | .intr v =>
@@ -259,8 +298,8 @@ def apiCallJ (jobs : Bool) (fuel : Nat) (c : Cfg) (prog : List Stmt) (st : St) :
       match rj.1 with
       | .intr v => apiRecover v rj.2
       | .oof => rj
-      | _ => (o, rj.2)
-    else (o, st2)
+      | _ => (o, emit [.rExit] rj.2)
+    else (o, if st.cs = 0 then emit [.rExit] st2 else st2)
 
 def apiCall := apiCallJ true
 
@@ -288,5 +327,12 @@ def kindAttrs (kind : Nat) : Bool × Bool × Bool :=
 def unwindFrameOld (leaky : Bool) (st : St) : St :=
   let r := unwindNone st.ts st.cs
   if leaky then { st with ts := r.1, cs := r.2 } else { st with ts := r.1.tail, cs := r.2 }
+
+/-- OLD shape of asyncRunner.onFulfilled (red-team m4), kept only for a regression lemma: the reset of
+    vm.curAsyncRunner is a plain statement after gen.next(), so a panic skips it. -/
+def asyncResumeNoDefer (r : Outcome × St) : Outcome × St :=
+  match r.1 with
+  | .intr _ => r
+  | _ => (r.1, { r.2 with car := false })
 
 end GojaModel.C15
